@@ -403,8 +403,7 @@ Lemma stop_exact mods ops1 o ops2 m c lv py :
 Proof.
   intros S NL. rewrite routing_exact. rewrite rev_app_distr. simpl. rewrite <- app_assoc. simpl.
   rewrite spec_choice_silent; auto.
-  - reflexivity.
-  - intros o' I. apply NL. apply in_rev; auto.
+  intros o' I. apply NL. apply in_rev; auto.
 Qed.
 
 (* the three ways of stopping named in the property are silencing operations *)
